@@ -324,6 +324,18 @@ def rc_check(prop, tier, spec, replay=None):
     if excl:
         extra_env["VERIF_EXCLUDE"] = ",".join(excl)
 
+    if replay and spec.get("fuzz_extra") and not replay.endswith(".json"):
+        import vfuzz
+
+        t = spec["fuzz_extra"]["target"]
+        status, secs, out = vfuzz.run_unit(vfuzz.build_target(t), replay, 300)
+        print("replay on fuzz target %s: %s" % (t, status))
+        if status != "ok":
+            sys.stdout.write(out[-3000:])
+            print("VIOLATION property=%s replay=%s" % (prop, os.path.abspath(replay)))
+            return 1
+        print("replay passed: %s" % replay)
+        return 0
     if replay:
         rc, out = replay_rc(exe, prop, replay, extra_env)
         sys.stdout.write(out)
@@ -404,6 +416,13 @@ def rc_check(prop, tier, spec, replay=None):
     finally:
         shutil.rmtree(work, ignore_errors=True)
 
+    if spec.get("fuzz_extra") and not replay:
+        import vfuzz
+
+        fv, fstats = vfuzz.extra_campaign(prop, tier, spec, seed)
+        violations += fv
+        if fstats:
+            cov["fuzz_differential"] = fstats
     cov["rule"] = spec["rule"]
     cov["regression_inputs_replayed"] = nreg
     cov["shards"] = tspec.get("shards", 1)
